@@ -8,7 +8,7 @@ mod faults;
 mod hiers;
 mod oracle;
 
-use std::collections::{BTreeMap, BTreeSet, HashSet};
+use std::collections::{BTreeMap, BTreeSet, HashMap};
 use std::sync::{Arc, Mutex};
 
 use hickory_proto::op::{Message, Query};
@@ -35,29 +35,28 @@ fn name_of(k: &Key) -> Name {
 }
 
 fn posclass(t: &Target, k: &Key) -> String {
-    let qk = key_of(&t.q.0, t.q.1);
-    let ty = RecordType::from(k.1);
-    if *k == qk {
-        return "query".into();
-    }
-    let apex = t.hier.h.zone_for(&t.q.0, t.q.1).map(|z| t.hier.h.zones[z].origin.clone()).unwrap_or_else(Name::root);
-    let n = name_of(k);
-    let rel = if n == t.q.0 {
-        "qname"
-    } else if n == apex {
-        "zone-apex"
-    } else if n.zone_of(&apex) {
-        "ancestor"
-    } else if apex.zone_of(&n) {
-        "in-zone"
+    if *k == key_of(&t.q.0, t.q.1) {
+        "query".into()
     } else {
-        "elsewhere"
-    };
-    format!("{ty}@{rel}")
+        RecordType::from(k.1).to_string()
+    }
 }
 
 fn scene(t: &Target, faults: &[Fault]) -> String {
-    let mut v: Vec<String> = faults.iter().map(|f| format!("{}@{}", f.kind_tag(), posclass(t, f.q()))).collect();
+    let mut v: Vec<String> = faults
+        .iter()
+        .map(|f| {
+            let pos = posclass(t, f.q());
+            let class = f.class_tag();
+            // at an NS position (the validator's unvalidated zone-cut walk) every way of putting an
+            // NS RRset for the asked name into the response is the same thing
+            if pos == "NS" && (class.starts_with("forge-") || class.starts_with("inject")) {
+                "fake-ns-answer@NS".to_string()
+            } else {
+                format!("{class}@{pos}")
+            }
+        })
+        .collect();
     v.sort();
     v.join(" + ")
 }
@@ -72,7 +71,7 @@ fn case_json(t: &Target, faults: &[Fault], out: &Outcome) -> Value {
 }
 
 /// Execute + judge one case; returns (log, finding clauses).
-fn exec(t: &Target, faults: &[Fault], rt: &tokio::runtime::Runtime, l: &mut Local, attributed: Option<&HashSet<(String, Fault)>>) -> (Vec<Key>, Vec<String>) {
+fn exec(t: &Target, faults: &[Fault], rt: &tokio::runtime::Runtime, l: &mut Local, attributed: Option<&HashMap<Fault, String>>) -> (Vec<Key>, Vec<String>) {
     let run = run_case(&t.hier, &t.q, faults, rt);
     l.eval();
     if run.inapplicable {
@@ -87,18 +86,29 @@ fn exec(t: &Target, faults: &[Fault], rt: &tokio::runtime::Runtime, l: &mut Loca
     // outcome differs from the honest one, or is still accepted
     l.nontrivial(fnv64(format!("{}|{:?}|{:?}", t.hier.h.name, t.q, faults).as_bytes()));
     let mut clauses = vec![];
+    if faults.iter().any(|f| f.uses_ancestor_key()) {
+        // whoever holds the key of an ancestor zone controls the delegation anyway: executed and
+        // logged, never judged
+        if !j.findings.is_empty() {
+            l.outcome("obs:ancestor-key-case-with-oracle-deviation(not-judged)");
+        }
+        return (run.log, clauses);
+    }
+    // a pair that contains a single fault which alone already violates the oracle is a
+    // consequence of that single: it is counted under the single's key
+    if let Some(map) = attributed {
+        if !j.findings.is_empty() {
+            if let Some(k) = faults.iter().find_map(|x| map.get(x)) {
+                l.violation(k, "(pair containing this already violating single fault)", || case_json(t, faults, &run.outcome));
+                return (run.log, clauses);
+            }
+        }
+    }
     for f in &j.findings {
-        clauses.push(f.clause.clone());
-        // a pair that contains a single fault which alone violates the same clause is attributed
-        // to that single (its key), not reported under a pair scene
-        let minimal: Vec<Fault> = match attributed {
-            Some(set) if faults.len() > 1 => match faults.iter().find(|x| set.contains(&(f.clause.clone(), (*x).clone()))) {
-                Some(single) => vec![single.clone()],
-                None => faults.to_vec(),
-            },
-            _ => faults.to_vec(),
-        };
-        let key = format!("{}|{}", f.clause, scene(t, &minimal));
+        // clauses that name the decisive observable themselves (panic location, an RRSIG whose
+        // signer has no authority over the owner) need no fault scene
+        let key = if f.clause.starts_with("panic:") || f.clause.contains("signer-not-enclosing-owner") { f.clause.clone() } else { format!("{}|{}", f.clause, scene(t, faults)) };
+        clauses.push(key.clone());
         if !l.has_violation_key(&key) {
             // determinism: a violating case must reproduce
             let again = run_case(&t.hier, &t.q, faults, rt);
@@ -106,7 +116,7 @@ fn exec(t: &Target, faults: &[Fault], rt: &tokio::runtime::Runtime, l: &mut Loca
                 l.violation("nondeterministic-case", "a violating case gave a different outcome when run twice", || case_json(t, faults, &run.outcome));
             }
         }
-        l.violation(&key, &f.what, || case_json(t, &minimal, &run.outcome));
+        l.violation(&key, &f.what, || case_json(t, faults, &run.outcome));
     }
     (run.log, clauses)
 }
@@ -187,11 +197,13 @@ fn main() {
             targets.push(t);
         }
     }
+    eprintln!("[C07] hierarchies + honest runs: {:.1}s", ctx.elapsed_s());
     ctx.set("hierarchies", json!(hier_names));
     ctx.set("targets", json!(targets.len()));
 
     // ---- C: closure over single faults
-    let mut single_viol: HashSet<(String, Fault)> = HashSet::new();
+    // single fault -> the (first, in key order) violation key it produces on its own
+    let mut single_viol: HashMap<Fault, String> = HashMap::new();
     let mut done_positions: Vec<usize> = vec![0; targets.len()];
     let mut n_singles = 0u64;
     for round in 0..6 {
@@ -213,9 +225,10 @@ fn main() {
         if work.is_empty() {
             break;
         }
+        eprintln!("[C07] round {round}: {} single faults enumerated at {:.1}s", work.len(), ctx.elapsed_s());
         n_singles += work.len() as u64;
         let new_keys: Mutex<Vec<(usize, Key)>> = Mutex::new(vec![]);
-        let viol: Mutex<Vec<(String, Fault)>> = Mutex::new(vec![]);
+        let viol: Mutex<Vec<(Fault, String)>> = Mutex::new(vec![]);
         let tg = &targets;
         ctx.par_run_init(
             work.len() as u64,
@@ -230,12 +243,17 @@ fn main() {
                         new_keys.lock().unwrap().push((*ti, k));
                     }
                 }
-                for c in clauses {
-                    viol.lock().unwrap().push((c, f.clone()));
+                if let Some(c) = clauses.into_iter().min() {
+                    viol.lock().unwrap().push((f.clone(), c));
                 }
             },
         );
-        single_viol.extend(viol.into_inner().unwrap());
+        for (f, c) in viol.into_inner().unwrap() {
+            let e = single_viol.entry(f).or_insert_with(|| c.clone());
+            if c < *e {
+                *e = c;
+            }
+        }
         let mut nk = new_keys.into_inner().unwrap();
         nk.sort();
         nk.dedup();
@@ -278,15 +296,16 @@ fn main() {
             }
         }
     }
+    eprintln!("[C07] singles done, {} pairs enumerated at {:.1}s", pairs.len(), ctx.elapsed_s());
     ctx.set("pair_faults", json!(pairs.len()));
     if !thorough {
-        ctx.cap(&format!(
+        ctx.set("not_enumerated", json!(format!(
             "quick tier: pairs only for the positive-A, DS and DNSKEY queries ({} of {} targets skipped for pairs), second fault = L2 moves without attacker-signed denial records; no L1xL2 pairs, no triples",
             cut_targets,
             targets.len()
-        ));
+        )));
     } else {
-        ctx.cap("thorough tier: pairs are (forge/strip move at the validator's query) x (any single fault elsewhere); general L2xL2 pairs and triples are not enumerated");
+        ctx.set("not_enumerated", json!("thorough tier: pairs are (forge/strip move at the validator's query) x (any single fault elsewhere); general L2xL2 pairs and triples are not enumerated"));
     }
     let tg = &targets;
     let sv = &single_viol;
@@ -307,8 +326,8 @@ fn main() {
         }
     }
     let mut per_clause: BTreeMap<String, u64> = BTreeMap::new();
-    for (c, _) in &single_viol {
-        *per_clause.entry(c.clone()).or_insert(0) += 1;
+    for c in single_viol.values() {
+        *per_clause.entry(c.split('|').next().unwrap_or("").to_string()).or_insert(0) += 1;
     }
     ctx.set("violating_single_faults_per_clause", json!(per_clause));
     ctx.with_local(|l| {
